@@ -438,6 +438,46 @@ inductive Attr where
   | dflt (body : HBody DefaultArgs)
 deriving Inhabited
 
+/-! ### how an attribute is recognised by its path
+
+`helper_attr_name` / `is_derive_ex_attr` / `HelperAttributeKinds::is_match` (item_type.rs): a helper attribute is a single
+identifier without a leading `::`, which may be written as a raw identifier; `derive_ex` may also be written with the path
+of its crate.  Everything else is foreign, whatever its last segment is called (F34). -/
+
+/-- what an attribute is for the expander -/
+inductive AttrKind where
+  | deriveEx | cmp (w : CmpAttr) | debug | dflt
+deriving Repr, BEq, DecidableEq, Inhabited
+
+/-- the path of an attribute as written: `::`? and the segments, each possibly with its `r#` prefix -/
+structure AttrPath where
+  leading : Bool := false
+  segs : List String
+deriving Repr, BEq, DecidableEq, Inhabited
+
+def helperOfName (n : String) : Option AttrKind :=
+  if n == "ord" then some (.cmp .ord) else if n == "partial_ord" then some (.cmp .partialOrd)
+  else if n == "eq" then some (.cmp .eq) else if n == "partial_eq" then some (.cmp .partialEq)
+  else if n == "hash" then some (.cmp .hash) else if n == "debug" then some .debug
+  else if n == "default" then some .dflt else none
+
+/-- `none` = a foreign attribute -/
+def AttrPath.kind (p : AttrPath) : Option AttrKind :=
+  match p.segs.map unraw with
+  | [n] => if p.leading then none else if n == "derive_ex" then some .deriveEx else helperOfName n
+  | [a, b] => if a == "derive_ex" && b == "derive_ex" then some .deriveEx else none
+  | _ => none
+
+def Attr.kind? : Attr → Option AttrKind
+  | .foreign _ => none
+  | .deriveEx _ => some .deriveEx
+  | .cmp w _ => some (.cmp w)
+  | .debug _ => some .debug
+  | .dflt _ => some .dflt
+
+def AttrKind.name : AttrKind → String
+  | .deriveEx => "derive_ex" | .cmp w => w.name | .debug => "debug" | .dflt => "default"
+
 def commaJoin (parts : List Toks) : Toks := sepBy "," (parts.filter (!·.isEmpty))
 
 def CmpArgs.toks (a : CmpArgs) : Toks :=
